@@ -150,6 +150,8 @@ type FnCtx struct {
 	usedAxioms      []string
 	attachErr       string
 	dropReturnHints bool
+	callOrd         map[*ssa.Call]int
+	callSnaps       map[int]heapState // state right after the K-th call (source order)
 	lemmaHeapValid  bool
 	usesStrLt       bool     // a byte-wise string comparison occurs: the order axioms on strings are relevant
 	dropped         []string // written loop invariants that do not attach to the current loop
